@@ -312,14 +312,13 @@ class Frame:
 
 
 def _walk_no_nested(fdef):
-    todo = list(fdef.body)
+    """pre-order (source order) walk of a function body, not descending into nested defs"""
+    todo = list(reversed(fdef.body))
     while todo:
-        n = todo.pop(0)
+        n = todo.pop()
         yield n
-        for c in ast.iter_child_nodes(n):
-            if isinstance(c, (ast.FunctionDef, ast.Lambda, ast.ClassDef)):
-                continue
-            todo.append(c)
+        kids = [c for c in ast.iter_child_nodes(n) if not isinstance(c, (ast.FunctionDef, ast.Lambda, ast.ClassDef))]
+        todo.extend(reversed(kids))
 
 
 def assigned_names(nodes):
@@ -2067,12 +2066,15 @@ class Run:
             mods = c.modifies(cc)
         mods = mods or {}
         head_before = self.heap.copy()
+        alloc_at_head = self.cur_alloc()
         for name, objs in mods.items():
             old = self.heap.get(name)
             new = H.fresh("lh_" + name, old.sort())
             if objs is not ANY:
                 r = z3.Int(H.fresh_name("fr_r"))
-                cond = z3.And(r < self.v.alloc_entry, *[r != o for o in objs])
+                # objects that existed when the loop was entered and are not listed keep their contents;
+                # objects allocated by earlier iterations may differ
+                cond = z3.And(r < alloc_at_head, *[r != o for o in objs])
                 self.assume(z3.ForAll([r], z3.Implies(cond, z3.Select(new, r) == z3.Select(old, r)), patterns=[z3.Select(new, r)]))
             self.heap.set(name, new)
         # objects allocated by earlier iterations: the allocation counter is unknown but not smaller
